@@ -1,4 +1,5 @@
 """C02 Strict and lazy evaluation agree on every order-insensitive program."""
+import json
 import os
 
 import common as C
@@ -105,6 +106,35 @@ def shaped_cases(tier):
     return cases
 
 
+def unused_cases(tier):
+    """variables that never reach the graph: their values are evaluated all the same (strict: at once; lazy: at the end), wherever
+    they stand relative to the variables that are used - before, between or after them, in the same stanza or a later match"""
+    import astgen as A
+    v, i, s = A.var, A.integer, A.string
+    spare_values = {"node": A.call("node"), "bad-plus": A.call("plus", i(1), s("x")), "unknown-fn": A.call("no-such-function", i(1)),
+                    "fine": A.call("plus", i(1), i(2)), "list-of-node": A.lst(A.call("node"), i(1)), "nested-bad": A.lst(A.call("not", i(3)))}
+    cases = []
+    k = 0
+    for name, val in spare_values.items():
+        for pos in ("before", "between", "after", "next-stanza", "in-loop"):
+            used = [A.let(v("x"), A.call("source-text", A.cap("id"))), A.node(v("n")), A.attrn(v("n"), A.attr("t", v("x")))]
+            spare = A.let(v("spare"), json.loads(json.dumps(val)))
+            if pos == "before":
+                st = [spare] + used
+            elif pos == "between":
+                st = used[:1] + [spare] + used[1:]
+            elif pos == "in-loop":
+                st = used + [A.forin("it", A.lst(i(1), i(2)), [A.let(v("sp2"), json.loads(json.dumps(val)))])]
+            else:
+                st = used + [spare]
+            stanzas = [A.stanza("(identifier) @id ", st)]
+            if pos == "next-stanza":
+                stanzas = [A.stanza("(identifier) @id ", used), A.stanza("(module) @_m ", [spare, A.let(v("late"), i(1)), A.node(v("m")), A.attrn(v("m"), A.attr("l", v("late")))])]
+            cases += A.both_modes("c02u-%d" % k, A.file(stanzas), 2 + k % 2)
+            k += 1
+    return cases
+
+
 def shorthand_cases(tier):
     import astgen as A
     r = A.rng(23)
@@ -136,6 +166,7 @@ def run(tier):
     import checks.c04 as c04
     run.add_cases("c02_scoped", c04.shaped_cases(tier, "c02c"))
     run.add_cases("c02_shorthands", shorthand_cases(tier))
+    run.add_cases("c02_unused", unused_cases(tier))
     # design level: TLC enumerates programs itself and checks StrictLazyAgree (with isomorphism decided inside TLA+) on the machines;
     # the enumerated programs are then replayed into the library (spec -> code)
     import mcexec
